@@ -174,6 +174,27 @@ more5 = {
 }
 for k, v in more5.items():
     more[k] = more.get(k, "") + v
+more6 = {
+ "C01": " Round 6: a MOTD with bracketed tokens inside its text.",
+ "C02": " Round 6: long-lived handler chains on the real DirHandler (a session under every fault plan with deferrals, then a clean session on the same two handler objects, which must reach the goal).",
+ "C03": " Round 6: the layer line-flood (up to 500 000 empty / blank / comment lines in front of every protocol line) with workers under an 8 MiB goroutine stack limit.",
+ "C05": " Round 6: library configuration 5 (secure-login challenge, one auxiliary address with and one without a password) and the oracle that the ;FW line names the session's address and every auxiliary address in order.",
+ "C06": " Round 6: 16 deep-code inputs of 120-140 KB (match lengths with Fibonacci-like counts above a mass of once-used symbols) that drive the adaptive tree to codes of 17 and 18 bits.",
+ "C07": " Round 6: the deep-code inputs (17 and 18 bit codes) in the long family.",
+ "C09": " Round 6: SMTP addresses whose domain merely ends in winlink.org.",
+ "C10": " Round 6: AddOutV3 (a posting of exactly the same serialised size with other content, also over the copy still in the outbox); an inbound MID with the characters _ - . and lower case.",
+ "C11": " Round 6: histories ProcessInbound-oddmid (MID K7:AB+CD@1_2) and SetSent-xdev (rename between folders fails with EXDEV; log.Fatal / os.Exit end the simulated process at that point).",
+ "C12": " Round 6: session cases on a send-only handler with hostile proposal MIDs.",
+ "C13": " Round 6: dial context cancelled as soon as the dial has returned; hang-up and port shutdown under traffic with late frames behind the disconnect acknowledgement; close-vs-send happens-before oracle (a send not ordered with the close of its channel is reported from every schedule containing both).",
+ "C14": " Round 6: a second caller on the same listener; 4200 six-byte frames while the application is busy for 10 s (bound 0); a TNC that is gone right behind its answer to the k-th host command, k = 1..10; close-vs-send oracle.",
+ "C15": " Round 6: both sides hang up after their last write; vnet models SO_LINGER 0 (abortive close); executions that end at the horizon (spinning dial) are reported without expanding their choice points; close-vs-send oracle.",
+ "C16": " Round 6: cases with a prior failed attempt on the same Session (another challenge, link dropped after the handshake).",
+ "C17": " Round 6: a transport with a transmit queue whose Flush blocks for 600 ms; accesses in guarded operands (&&, ||), if-init and else-if conditions are recorded when evaluated.",
+ "C18": " Round 6: setter SetBody-Body-SetBody (the earlier body read back and rendered in between).",
+ "C19": " Round 6: query parameter names with capitals, two names differing only in case, Host= (which is not host=).",
+}
+for k, v in more6.items():
+    more[k] = more.get(k, "") + v
 for k, v in more.items():
     checks[k]["level_claimed"]["text"] += v
 for k, v in notes.items():
